@@ -125,6 +125,14 @@ let rec expr p ind e =
   | EFor (i, c, s, body) ->
     str p "for ("; expr p ind i; str p "; "; expr p ind c; str p "; "; expr p ind s; str p ")"; nl p;
     braced p ind body
+  | EForInRange (x, a, b, body) ->
+    str p ("for (" ^ vname p x ^ " in ["); sub p ind a; str p " .. "; sub p ind b; str p "])"; nl p;
+    let saved = p.tenv in
+    p.tenv <- (int_of_n x, None) :: p.tenv; braced p ind body; p.tenv <- saved
+  | EForInArr (x, a, body) ->
+    str p ("for (" ^ vname p x ^ " in "); (match a with EArrLit _ -> expr p ind a | _ -> sub p ind a); str p ")"; nl p;
+    let saved = p.tenv in
+    p.tenv <- (int_of_n x, None) :: p.tenv; braced p ind body; p.tenv <- saved
   | ELambda fd -> lambda p ind fd
   | EArrLit (es, t) -> str p "["; commas p ind es; str p "] : "; str p (ty_str p t)
   | EIndex (a, i) -> sub p ind a; str p "["; expr p ind i; str p "]"
